@@ -38,9 +38,10 @@ def queries():
             qs.append(Q('deciders_len%d_%s' % (n, tier), 'C02_valid.c', 'strconv.cpp', config='small', defs={'OP': 1, 'NFIX': n}, unwind=3 * n + 6, heap_cap=max(3 * n + 2, 16), tiers=(tier,), bound={'bytes': n}, timeout=600 if tier == 'quick' else 3000))
             if n <= 1:   # len 2: > 45 GB (see the note on substitute_invalid routes below)
                 qs.append(Q('repair_buffer_len%d_%s' % (n, tier), 'C02_valid.c', 'strconv.cpp', config='small', defs={'OP': 5, 'NFIX': n}, unwind=3 * n + 6, heap_cap=max(3 * n + 2, 16), tiers=(tier,), bound={'bytes': n}, timeout=600 if tier == 'quick' else 3000))
-            for route, rn in ((1, 'from_utf8'), (2, 'ctor_cbuf'), (3, 'ctor_cbuf_move'), (4, 'set_cbuf'), (5, 'ctor_ptr'), (6, 'set_ptr'), (8, 'ctor_string_view')):
-                # std::string overloads: libstdc++ internals are environment; they share _set_utf8 with the string_view route
+            for route, rn in ((1, 'from_utf8'), (2, 'ctor_cbuf'), (3, 'ctor_cbuf_move'), (4, 'set_cbuf'), (5, 'ctor_ptr'), (6, 'set_ptr'), (8, 'ctor_string_view'), (7, 'ctor_std_string'), (10, 'from_std_string'), (11, 'from_std_u8string_view'), (12, 'ctor_char8_ptr')):
+                # the std::string overloads run libstdc++'s basic_string code, translated along with the library
                 if tier == 'quick' and (n < 2 or n > 3 or (n == 3 and route not in (1, 3))): continue
+                if route in (7, 10, 11, 12) and n > 3: continue
                 if tier == 'thorough' and n > 5: continue
                 for mode in (0, 1, 2):
                     # substitute_invalid through ST::string: the repaired text is written at data-dependent offsets into a result whose storage mode depends on
